@@ -17,10 +17,12 @@ LEVEL = "other"
 
 
 def run(chk):
-    cfgs = ["base", "port"] if chk.tier == "quick" else ["base", "port", "z", "hi", "port+z"]
+    cfgs = ["base", "port", "hi"] if chk.tier == "quick" else ["base", "port", "z", "hi", "port+z"]
     chk.configs = cfgs
     chk.rule("WRAP.container-end", "PointInPolygon: every wrap-around predecessor `prev = E - 1` takes E from polygon.cend() on all reaching definitions "
              "(the local end marker is moved during the cyclic walk)")
+    chk.rule("AXIS.mirror", "twin locals for the two axes (bb0minx / bb0miny, originx / originy, ...) read mirrored coordinates; includes the "
+             "CLIPPER2_HI_PRECISION variant of GetSegmentIntersectPt")
     chk.rule("P.integer-only", "no expression of floating type in the exact predicates; products are formed in __int128 or in uint64 inside Multiply")
     chk.rule("INT64.product", "no product is formed in a signed 64-bit integer type anywhere in the library")
     chk.rule("P.portable-sign", "portable tails: CrossProductSign == sign(sign_ab*|ab| - sign_cd*|cd|) with |.| ordered by (hi, lo); "
@@ -32,6 +34,10 @@ def run(chk):
         e3.multiply_no_wrap(db, chk, cfg)
         e9.rule_int64_product(db, chk, cfg)
         e3.pip_wrap_rule(db, chk, cfg)
+        nax = e3.axis_mirror_rule(db, chk, cfg)
+        if nax < (10 if "hi" in cfg.split("+") else 4):
+            from ..extract import AnalysisBroken
+            raise AnalysisBroken("AXIS.mirror: only %d x/y twin declarations found in configuration %s" % (nax, cfg))
         if "port" in cfg.split("+"):
             e3.portable_sign_logic(db, chk, cfg)
     chk.floor("P.integer-only", 5 * len(cfgs))
